@@ -1004,6 +1004,10 @@ pub(crate) fn eval<
         // Sponge chain starts (next row new_start, not Merkle): capacity is never witness-fed.
         // The first capacity element starts at the length tag (fresh capacity 0 `+= cap_tag`); the
         // rest stay zero.
+        //
+        // Not gated by `when_transition`: on the last row the window wraps around to row 0, which
+        // always starts a chain and has no predecessor. Without the wrap-around instance the
+        // capacity of the first permutation of the table would be unconstrained.
         for slot in RATE_EXT..WIDTH_EXT {
             for d in 0..D {
                 let tag = if slot == RATE_EXT && d == 0 {
@@ -1012,7 +1016,6 @@ pub(crate) fn eval<
                     AB::Expr::ZERO
                 };
                 builder
-                    .when_transition()
                     .when(next_new_start)
                     .when(not_merkle.clone())
                     .assert_zero(next_in[slot * D + d] - tag);
